@@ -1392,6 +1392,7 @@ class Associate(BeginStatement):
 
     match = re.compile(r"associate\s*\(.*\)\Z", re.I).match
     end_stmt_cls = EndAssociate
+    name = ""
 
     def process_item(self):
         line = self.item.get_line()[9:].lstrip()
@@ -1399,7 +1400,7 @@ class Associate(BeginStatement):
         return BeginStatement.process_item(self)
 
     def tostr(self):
-        return "ASSOCIATE (%s)" % (self.associations)
+        return "ASSOCIATE (%s)" % (self.item.apply_map(self.associations))
 
     def get_classes(self):
         return execution_part_construct
@@ -1585,10 +1586,14 @@ class Enum(BeginStatement):
 
     blocktype = "enum"
     end_stmt_cls = EndEnum
+    name = ""
     match = re.compile(r"enum\s*,\s*bind\s*\(\s*c\s*\)\Z", re.I).match
 
     def process_item(self):
         return BeginStatement.process_item(self)
+
+    def tostr(self):
+        return "ENUM, BIND(C)"
 
     def get_classes(self):
         return [Enumerator]
